@@ -593,6 +593,33 @@ let () =
              | _ -> failwith ("json: bad token " ^ t) in
            let j = node () in
            pr_reading "json" name (resp_of_json j)
+       | ["coqx"; kind; name; body] ->
+           (* the same reading as a Coq term: tools write  Example x : <reader> <bytes> = <term>. Proof. vm_compute. reflexivity. Qed.
+              and coqc decides whether the extracted code and the kernel agree on this input *)
+           let b = if body = "e" then [] else bytes_of_ostring (unhex_o body) in
+           let cn x = decimal_of_n x ^ "%N" in
+           let cbytes (o : Stdlib.String.t) =
+             "[" ^ Stdlib.String.concat "; " (List.init (Stdlib.String.length o) (fun i -> string_of_int (Char.code o.[i]) ^ "%N")) ^ "]" in
+           let cs (x : string) = "(str_of " ^ cbytes (ostring_of x) ^ ")" in
+           let copt f = function None -> "None" | Some x -> "(Some " ^ f x ^ ")" in
+           let clist f l = "[" ^ Stdlib.String.concat "; " (List.map f l) ^ "]" in
+           let cmeta (m : meta) = Printf.sprintf "{| m_num := %s; m_size := %s; m_hash := %s; m_sig := %s |}" (cn m.m_num) (cn m.m_size) (cs m.m_hash) (copt cs m.m_sig) in
+           let cpatch (p : patch) = Printf.sprintf "{| p_num := %s; p_hash := %s; p_url := %s; p_sig := %s |}" (cn p.p_num) (cs p.p_hash) (cs p.p_url) (copt cs p.p_sig) in
+           let ckind = function EvInstallSuccess -> "EvInstallSuccess" | EvInstallFailure -> "EvInstallFailure" | EvDownload -> "EvDownload" in
+           let cmsg = function MsgNone -> "MsgNone" | MsgInit -> "MsgInit" | MsgEngine -> "MsgEngine" | MsgOther x -> "(MsgOther " ^ cs x ^ ")" in
+           let cev (e : event) = Printf.sprintf "{| e_kind := %s; e_num := %s; e_app := %s; e_rel := %s; e_msg := %s |}" (ckind e.e_kind) (cn e.e_num) (cs e.e_app) (cs e.e_rel) (cmsg e.e_msg) in
+           let cjf f = function JMissing -> "JMissing" | JGarbage -> "JGarbage" | JOk x -> "(JOk " ^ f x ^ ")" in
+           let term = (match kind with
+             | "resp" -> "resp_of_body " ^ cbytes (ostring_of_bytes b) ^ " = " ^
+                         copt (fun (r : resp) -> Printf.sprintf "{| r_avail := %s; r_patch := %s; r_rb := %s |}" (if r.r_avail then "true" else "false") (copt cpatch r.r_patch) (copt (clist cn) r.r_rb)) (resp_of_body b)
+             | "pj" -> "pj_of_file " ^ cbytes (ostring_of_bytes b) ^ " = " ^
+                       cjf (fun (s : pstate) -> Printf.sprintf "{| lb := %s; nb := %s; cb := %s; bad := %s |}" (copt cmeta s.lb) (copt cmeta s.nb) (copt cmeta s.cb) (clist cn s.bad)) (pj_of_file b)
+             | "sj" -> "sj_of_file " ^ cbytes (ostring_of_bytes b) ^ " = " ^
+                       cjf (fun (s : sstate) -> Printf.sprintf "{| rel := %s; evq := %s |}" (cs s.rel) (clist cev s.evq)) (sj_of_file b)
+             | "b64" -> "b64_decode " ^ cs (cstring_of (ostring_of_bytes b)) ^ " = " ^
+                        copt (fun x -> cbytes (ostring_of_bytes x)) (b64_decode (cstring_of (ostring_of_bytes b)))
+             | _ -> failwith "coqx kind") in
+           Printf.printf "coqx:%s:%s\n" name term
        | ["jsonbody"; name; body] ->
            (* what the model reads from the BYTES of a response body (JsonText.resp_of_body: serde_json's strict reader
               at the struct's fields, its scanner at unknown keys, then the derived Deserialize) *)
